@@ -366,6 +366,10 @@ type epoch struct {
 }
 
 func (e epoch) matches(class string) bool {
+	if e.all && strings.HasPrefix(class, "global:") {
+		// package-level variables change only when a modifies clause names them (checked on the callee's body)
+		return false
+	}
 	if e.all {
 		for _, p := range e.except {
 			if classMatches(class, p) {
@@ -398,21 +402,22 @@ func classMatches(class, pat string) bool {
 
 // State is the symbolic state along one path.
 type State struct {
-	heap    map[string]Term
-	epochs  []epoch
-	alloc   Term
-	pc      []Term
-	defs    []string
-	log     []LogEntry
-	dirty   []dirtyObj
-	invSeen map[string]bool
-	inQuant int
-	trace   []string
-	noSide  bool // spec evaluation: do not add side assumptions
-	param   *paramHeap
-	pending Term              // ghost: first error returned by a propagating callee and not yet returned
-	locals  []Term            // unescaped objects allocated by this activation
-	inside  map[string]string // local object stored inside another local object
+	heap     map[string]Term
+	epochs   []epoch
+	alloc    Term
+	pc       []Term
+	defs     []string
+	log      []LogEntry
+	dirty    []dirtyObj
+	invSeen  map[string]bool
+	inQuant  int
+	trace    []string
+	noSide   bool // spec evaluation: do not add side assumptions
+	param    *paramHeap
+	pending  Term              // ghost: first error returned by a propagating callee and not yet returned
+	boundary *State            // heap at the last boundary (entry, after a call, loop head): object invariants hold there
+	locals   []Term            // unescaped objects allocated by this activation
+	inside   map[string]string // local object stored inside another local object
 }
 
 type dirtyObj struct {
@@ -428,7 +433,7 @@ type LogEntry struct {
 }
 
 func (st *State) clone() *State {
-	n := &State{alloc: st.alloc, inQuant: st.inQuant, noSide: st.noSide, pending: st.pending, param: st.param}
+	n := &State{alloc: st.alloc, inQuant: st.inQuant, noSide: st.noSide, pending: st.pending, param: st.param, boundary: st.boundary}
 	n.heap = make(map[string]Term, len(st.heap))
 	for k, v := range st.heap {
 		n.heap[k] = v
@@ -571,8 +576,12 @@ func (x *Exec) writeLeaf(st *State, class string, idx []Term, v Term) {
 func (x *Exec) load(st *State, p Ptr, t types.Type) Val {
 	switch u := t.Underlying().(type) {
 	case *types.Slice:
+		base := x.def(st, "ld", x.readLeaf(st, p.Prefix+"#base", p.Idx, sInt))
+		if x.prog.specs.Owned[p.Prefix] {
+			x.own[base.S] = p.Prefix
+		}
 		return Sl{
-			x.def(st, "ld", x.readLeaf(st, p.Prefix+"#base", p.Idx, sInt)),
+			base,
 			x.def(st, "ld", x.readLeaf(st, p.Prefix+"#off", p.Idx, sInt)),
 			x.def(st, "ld", x.readLeaf(st, p.Prefix+"#len", p.Idx, sInt)),
 			x.def(st, "ld", x.readLeaf(st, p.Prefix+"#cap", p.Idx, sInt)), t}
@@ -858,7 +867,7 @@ func (x *Exec) box(st *State, v Val, t types.Type) Term {
 func (x *Exec) unbox(it Term, t types.Type) Val {
 	switch u := t.Underlying().(type) {
 	case *types.Pointer, *types.Map, *types.Signature, *types.Chan:
-		return Sc{app(sInt, "iref", it), t}
+		return Sc{irefOf(it), t}
 	case *types.Basic:
 		switch {
 		case u.Info()&types.IsInteger != 0:
@@ -894,4 +903,36 @@ func (x *Exec) hasTag(it Term, t types.Type) Term {
 		}
 	}
 	return mkAnd(app(sBool, "(_ is iopq)", it), mkEq(app(sInt, "itago", it), tag))
+}
+
+// markBoundary records the current heap as one in which every object invariant holds.
+func (st *State) markBoundary() {
+	b := st.clone()
+	b.noSide = true
+	b.boundary = nil
+	st.boundary = b
+}
+
+// elemPrefix is the heap class of the elements of a slice with the given backing-store reference:
+// slices loaded from an owned field live in a class of their own.
+func (x *Exec) elemPrefix(base Term, et types.Type) string {
+	if o, ok := x.own[base.S]; ok {
+		return "elem:" + typeStr(et) + "@" + o
+	}
+	return "elem:" + typeStr(et)
+}
+
+// irefOf is (iref it), simplified when it is syntactically a boxed pointer.
+func irefOf(it Term) Term {
+	if strings.HasPrefix(it.S, "(iptr ") && balanced(it.S) {
+		body := it.S[6 : len(it.S)-1]
+		n := sortEnd(body)
+		if n < len(body) {
+			r := strings.TrimSpace(body[n:])
+			if balanced(r) || !strings.ContainsAny(r, " ()") {
+				return Term{r, sInt}
+			}
+		}
+	}
+	return app(sInt, "iref", it)
 }
